@@ -229,6 +229,12 @@ pub enum Pay {
     /// the profile lists: a case whose class decodes to PBIG becomes PHUGE when bit 7 of the
     /// salt byte is set (so existing cases keep their decoding and shrinking leads to PBIG)
     PHUGE,
+    /// 3, 5, 6, 7 bytes (alignment 1), tagged like P1.  Not members of the profile lists either:
+    /// a case whose class decodes to P4 becomes one of them by bits 5-6 of the salt byte
+    P3,
+    P5,
+    P6,
+    P7,
     /// tagged payload whose destructor re-enters the channel (calls `len()` on a live handle),
     /// like a message that owns a handle of its own channel
     PH,
@@ -253,6 +259,10 @@ impl Pay {
             Pay::PBIG => "PBIG",
             Pay::PA64 => "PA64",
             Pay::PHUGE => "PHUGE",
+            Pay::P3 => "P3",
+            Pay::P5 => "P5",
+            Pay::P6 => "P6",
+            Pay::P7 => "P7",
             Pay::PH => "PH",
         }
     }
@@ -295,6 +305,8 @@ pub struct Profile {
     pub script_bias: u8,
     /// allow a generated backlog (see `Case::decode`)
     pub prefill: bool,
+    /// first generation of the profile (regression cases): no derived payload classes
+    pub first_gen: bool,
 }
 
 fn pick_weighted(w: &[(K, u32)], b: u8) -> K {
@@ -351,8 +363,24 @@ impl Case {
         let async_ctor = self.cfg[1] & 1 != 0;
         let parallelism = parallelism_of(self.cfg[1]);
         let mut pay = p.pays[(self.cfg[2] as usize * p.pays.len()) >> 8];
-        if pay == Pay::PBIG && self.cfg[5] & 0x80 != 0 {
-            pay = Pay::PHUGE;
+        if !p.first_gen {
+            if pay == Pay::PBIG && self.cfg[5] & 0x80 != 0 {
+                pay = Pay::PHUGE;
+            }
+            if pay == Pay::P4 {
+                pay = match (self.cfg[5] >> 5) & 3 {
+                    0 => Pay::P4,
+                    1 => Pay::P3,
+                    2 => Pay::P7,
+                    _ => {
+                        if self.cfg[5] & 0x10 != 0 {
+                            Pay::P5
+                        } else {
+                            Pay::P6
+                        }
+                    }
+                };
+            }
         }
         let mut grants = Vec::new();
         for i in 0..nt {
